@@ -16,16 +16,22 @@ LEVEL_TEXT = ("Theorems over the reals. (1) Nearest-hit reduction of render.py's
               "(plane: finite planes only); mesh leaves: with build_mesh_bvh's half extent max(|pmin|,|pmax|) (hand model RayCast.meshHalf, host numpy code) every vertex and every triangle point lies in "
               "_compute_box_bounds(pos, rot, half) -- this was FALSE before: the check found that off-centre meshes were clipped, repaired in /repo 670227b 'fix: rendered meshes were clipped when their "
               "vertex bounding box is not centred on the geom frame'. (5) End to end for sphere scenes with Gen ray_sphere + _compute_sphere_bounds. Witnesses (C35Witness): infinite-plane leaf box "
-              "+-1000; orthographic constant ray. On the real code every pixel of random scenes / cameras / resolutions / intrinsics / worlds is compared with mujoco.mj_ray along an independently computed pixel ray.")
-TECHNIQUE = ('Lean 4 theorems over functions regenerated from source (compute_ray, BVH bounds, ray-geom) and over a hand-written model of the cast loop / BVH traversal (Model/RayCast.lean; wp.Bvh is an opaque builtin, its contract is a hypothesis); oracle: per-pixel mujoco.mj_ray')
+              "+-1000; orthographic constant ray. On the real code every pixel of random scenes / cameras / resolutions / intrinsics / worlds is compared with mujoco.mj_ray along an independently computed pixel ray; "
+              "every 4th scene has flexes (cloth, cloth + cable, two cloths) next to the rigid geoms with >= 2 differently posed worlds, so that the scene BVH has bvh_ngeom + bvh_nflexgeom leaves per world "
+              "(per-world leaf stride of refit_scene_bvh / cast_ray), flex pixels compared with mujoco.mj_rayFlex and the flex mid-surface.")
+TECHNIQUE = ('Lean 4 theorems over functions regenerated from source (compute_ray, BVH bounds, ray-geom) and over a hand-written model of the cast loop / BVH traversal (Model/RayCast.lean; wp.Bvh is an opaque builtin, its contract is a hypothesis); oracle: per-pixel mujoco.mj_ray (+ mj_rayFlex) in every world')
 LEVEL_NOTE = ("C35_partial: render._render_megakernel, cast_ray and bvh._compute_bvh_bounds are not translated (closure factories, opaque wp.bvh_query_* builtins): pixel decoding, enabled_geom_ids indirection, "
-              "per-type dispatch, mesh triangle queries, hfield/flex leaves are covered by the oracle only; build_mesh_bvh's half extent is host numpy code, modelled by hand and compared with the real "
+              "per-type dispatch, mesh triangle queries, hfield/flex leaves and the per-world leaf layout lower/upper[worldid * (bvh_ngeom + bvh_nflexgeom) + leaf] shared by build_scene_bvh, refit_scene_bvh and cast_ray "
+              "are covered by the oracle only (forward -> refit_bvh -> render in every world, flex and flex-free models); build_mesh_bvh's half extent is host numpy code, modelled by hand and compared with the real "
               "rc.mesh_bounds_size on every mesh scene. Still present in /repo (findings): orthographic cameras render a constant image, infinite planes end 1000 m from their origin, a scene with no "
               "rendered geom crashes the process. Trusted: Lean kernel + Mathlib, tier-A translator, Warp's wp.Bvh build/refit/query and wp.mesh_query_ray.")
 ASSUMPTIONS = ["oracle mujoco.mj_ray restricted to the renderer's enabled geom groups, flg_static=1, all geoms with alpha > 0",
                "pixels whose reference hit is an infinite plane beyond 1000 m (in-plane) of the plane origin are outside the domain (documented finite leaf box, trigger plane-far)",
                "with backface culling enabled only cameras outside every geom are compared (mj_ray has no culling)",
-               "silhouette pixels: accepted if the reference ray jittered by 2e-4 rad agrees; exact-distance ties: segmentation may name either geom"]
+               "silhouette pixels: accepted if the reference ray jittered by 2e-4 rad agrees; exact-distance ties: segmentation may name either geom",
+               "flex pixels (reference mujoco.mj_rayFlex with vertex spheres + edge capsules + faces, no group filter): segmentation must be (flex id, mjOBJ_FLEX) and the rendered hit point must lie within "
+               "1.5 radius of the flex mid-surface (the renderer draws a dim-2 flex as a plate with smoothed normals, so depth differs from MuJoCo's by O(radius)/cos); flex rim pixels and rigid hits closer than "
+               "0.05 + 10 radius to the flex surface may show either object (counted as flex-rim-accepted); rigid-geom pixels of flex scenes are compared as strictly as everywhere else"]
 
 _TET = '<mesh name="tet" vertex="0.3 0.3 0.3  0.3 -0.3 -0.3  -0.3 0.3 -0.3  -0.3 -0.3 0.3"/>'
 _PYR = '<mesh name="pyr" vertex="-0.2 -0.2 0  0.2 -0.2 0  0.2 0.2 0  -0.2 0.2 0  {x:.2f} {y:.2f} {h:.2f}"/>'
@@ -47,8 +53,29 @@ def _geom_xml(rng, t, pos, extra=""):
   return f'<geom type="{t}" size="{size}" pos="{p}" euler="{_euler(rng)}" group="{grp}" rgba="{rgba}" {extra}/>'
 
 
-def _scene(rng, with_mesh=False, intrinsic=False, W=16, H=12):
-  """static + free-body geoms of every primitive type, one camera on a free body (pose differs per world)"""
+def _flex_xml(rng, flex):
+  """flex bodies next to the rigid geoms: flex 1 = cloth (2D grid), 2 = cloth + cable (1D, one BVH leaf per edge), 3 = two cloths; placed in view (around the scene) or far away (never seen);
+  every unpinned vertex has 3 slide dofs, so the flex pose differs per world"""
+  out = []
+  kinds = {1: ["cloth"], 2: ["cloth", "cable"], 3: ["cloth", "cloth"]}[flex]
+  far = rng.random() < 0.25
+  for k, kind in enumerate(kinds):
+    pos = rng.uniform(-1.0, 1.0, 3) * (0.8 if not far else 0.0) + (np.array([0.0, 0.0, 60.0 + 3 * k]) if far else np.zeros(3))
+    rgba = f'{rng.random():.2f} {rng.random():.2f} {rng.random():.2f} 1'
+    if kind == "cloth":
+      nx, ny = int(rng.integers(3, 6)), int(rng.integers(2, 5))
+      pin = '<pin id="0"/>' if rng.random() < 0.5 else ""
+      comp = (f'<flexcomp name="cloth{k}" type="grid" dim="2" count="{nx} {ny} 1" spacing="{rng.uniform(0.15, 0.35):.3f} {rng.uniform(0.15, 0.35):.3f} 0.1" radius="{rng.uniform(0.005, 0.02):.4f}" '
+              f'mass="0.1" rgba="{rgba}">{pin}<contact contype="0" conaffinity="0" selfcollide="none"/></flexcomp>')
+    else:
+      comp = (f'<flexcomp name="cable{k}" type="grid" dim="1" count="{int(rng.integers(3, 6))} 1 1" spacing="{rng.uniform(0.1, 0.3):.3f} 0.1 0.1" radius="{rng.uniform(0.01, 0.03):.4f}" '
+              f'mass="0.1" rgba="{rgba}"><contact contype="0" conaffinity="0" selfcollide="none"/></flexcomp>')
+    out.append(f'<body name="flexbody{k}" pos="{pos[0]:.3f} {pos[1]:.3f} {pos[2]:.3f}" euler="{_euler(rng)}">{comp}</body>')
+  return out, far
+
+
+def _scene(rng, with_mesh=False, intrinsic=False, W=16, H=12, flex=0):
+  """static + free-body geoms of every primitive type, one camera on a free body (pose differs per world); optionally flexes (cloth / cable) next to them"""
   types = ["sphere", "capsule", "cylinder", "box", "ellipsoid"]
   geoms = list(types) + [types[int(rng.integers(len(types)))] for _ in range(int(rng.integers(0, 5)))]
   if with_mesh:
@@ -69,6 +96,9 @@ def _scene(rng, with_mesh=False, intrinsic=False, W=16, H=12):
   elif plane == 2:
     body.append(f'<geom type="plane" size="{rng.uniform(0.5, 3):.2f} {rng.uniform(0.5, 3):.2f} 0.1" pos="0 0 -1.2" euler="{rng.uniform(-20, 20):.1f} {rng.uniform(-20, 20):.1f} 0" '
                 f'group="{int(rng.integers(0, 3))}" rgba="0.5 0.5 0.5 1"/>')
+  if flex:
+    fx, _far = _flex_xml(rng, flex)
+    body += fx
   if intrinsic:
     sw, sh = rng.uniform(0.01, 0.04), rng.uniform(0.01, 0.04)
     f = rng.uniform(0.01, 0.04)
@@ -153,13 +183,67 @@ def _inside_any(mjm, mjd, p, enabled):
   return False
 
 
-def _ref_pixel(mujoco, mjm, mjd, org, dw, gg, gid):
+_GEOM, _FLEX = 5, 9  # mjOBJ_GEOM, mjOBJ_FLEX
+
+
+def _ref_geom(mujoco, mjm, mjd, org, dw, gg, gid):
   d = mujoco.mj_ray(mjm, mjd, org, dw, gg, 1, -1, gid)
-  return float(d), int(gid[0])
+  g = int(gid[0])
+  return (float(d), g, _GEOM) if g >= 0 else (-1.0, -1, -1)
+
+
+def _ref_flex(mujoco, mjm, mjd, org, dw):
+  """nearest flex along the ray: mujoco.mj_rayFlex with vertex spheres, edge capsules and faces (flexes have no group filter in the renderer)"""
+  best = (-1.0, -1, -1)
+  for f in range(mjm.nflex):
+    df = float(mujoco.mj_rayFlex(mjm, mjd, 0, True, True, True, False, f, org, dw, None))
+    if df >= 0 and (best[1] < 0 or df < best[0]):
+      best = (df, f, _FLEX)
+  return best
+
+
+def _ref_pixel(mujoco, mjm, mjd, org, dw, gg, gid):
+  """(distance, id, object type) of the nearest hit among rendered geoms and flexes; (-1, -1, -1) for a miss"""
+  best = _ref_geom(mujoco, mjm, mjd, org, dw, gg, gid)
+  if mjm.nflex:
+    fl = _ref_flex(mujoco, mjm, mjd, org, dw)
+    if fl[1] >= 0 and (best[1] < 0 or fl[0] < best[0]):
+      best = fl
+  return best
+
+
+def _pt_seg(p, a, b):
+  ab = b - a
+  t = np.clip(((p - a) * ab).sum(1) / np.maximum((ab * ab).sum(1), 1e-30), 0.0, 1.0)
+  return np.linalg.norm(p - (a + t[:, None] * ab), axis=1)
+
+
+def _flex_dist(mjm, mjd, f, p):
+  """distance of point p from the mid-surface (triangles, dim 2) / centre line (segments, dim 1) of flex f, independent numpy float64"""
+  dim = int(mjm.flex_dim[f])
+  adr, n = int(mjm.flex_elemdataadr[f]), int(mjm.flex_elemnum[f])
+  el = mjm.flex_elem[adr:adr + n * (dim + 1)].reshape(n, dim + 1) + int(mjm.flex_vertadr[f])
+  X = mjd.flexvert_xpos
+  if dim == 1:
+    return float(_pt_seg(p, X[el[:, 0]], X[el[:, 1]]).min())
+  a, b, c = X[el[:, 0]], X[el[:, 1]], X[el[:, 2]]
+  nrm = np.cross(b - a, c - a)
+  nrm = nrm / np.maximum(np.linalg.norm(nrm, axis=1, keepdims=True), 1e-30)
+  dpl = ((p - a) * nrm).sum(1)
+  q = p - dpl[:, None] * nrm
+  ins = np.ones(n, dtype=bool)
+  for u, v in ((a, b), (b, c), (c, a)):
+    ins &= (np.cross(v - u, q - u) * nrm).sum(1) >= 0
+  best = min(_pt_seg(p, a, b).min(), _pt_seg(p, b, c).min(), _pt_seg(p, c, a).min())
+  if ins.any():
+    best = min(best, np.abs(dpl[ins]).min())
+  return float(best)
 
 
 def _compare(acc, mujoco, mjm, mjd, cam, W, H, depth, seg, enabled_groups, xml, what, replay, far_plane_skip=True):
-  """compares one rendered image of one world with mj_ray; returns number of compared pixels"""
+  """compares one rendered image of one world with mj_ray (+ mj_rayFlex when the model has flexes); returns number of compared pixels.
+  Rigid-geom pixels: depth rel 1e-4 and exact geom id. Flex pixels (the renderer draws a dim-2 flex as a plate of half thickness radius with smoothed normals, MuJoCo's ray uses spheres /
+  capsules / faces, so the two surfaces differ by O(radius)): segmentation must be (flex id, mjOBJ_FLEX) and the rendered hit point must lie within 1.5 radius of the flex mid-surface."""
   dirs = _pixel_dirs(mjm, cam, W, H)
   org = mjd.cam_xpos[cam].copy()
   R = mjd.cam_xmat[cam].reshape(3, 3)
@@ -171,32 +255,41 @@ def _compare(acc, mujoco, mjm, mjd, cam, W, H, depth, seg, enabled_groups, xml, 
     for px in range(W):
       dl = dirs[py, px]
       dw = R @ dl
-      dist, g = _ref_pixel(mujoco, mjm, mjd, org, dw, gg, gid)
+      dist, g, gt = _ref_pixel(mujoco, mjm, mjd, org, dw, gg, gid)
       got_d = float(depth[py * W + px])
       got_g, got_t = int(seg[py * W + px, 0]), int(seg[py * W + px, 1])
+      got_dist = got_d / -dl[2]
       acc.evals += 1
       n += 1
-      if g >= 0 and mjm.geom_type[g] == 0 and (mjm.geom_size[g, 0] <= 0 or mjm.geom_size[g, 1] <= 0) and far_plane_skip:
+      if gt == _GEOM and mjm.geom_type[g] == 0 and (mjm.geom_size[g, 0] <= 0 or mjm.geom_size[g, 1] <= 0) and far_plane_skip:
         hp = mjd.geom_xmat[g].reshape(3, 3).T @ (org + dist * dw - mjd.geom_xpos[g])
         if max(abs(hp[0]), abs(hp[1])) > 990.0:
           acc.hit("plane-beyond-1000m-skipped")
           continue
 
-      def ok(dist_r, g_r, dl_r):
+      def flex_point_ok():
+        """the rendered flex hit point lies on the flex (within 1.5 radius of its mid-surface)"""
+        if not (got_t == _FLEX and 0 <= got_g < mjm.nflex and got_d > 0):
+          return False
+        return _flex_dist(mjm, mjd, got_g, org + got_dist * dw) <= 1.5 * float(mjm.flex_radius[got_g]) + 1e-3 * (1.0 + got_dist)
+
+      def ok(dist_r, g_r, t_r, dl_r):
         ref_depth = dist_r * -dl_r[2] if g_r >= 0 else 0.0
         if (g_r >= 0) != (got_g >= 0):
           return False, False
         if g_r < 0:
           return got_d == 0.0 and got_t == -1, False
-        if abs(got_d - ref_depth) > 1e-4 * (1.0 + abs(ref_depth)) + 2e-5:
+        if got_t != t_r:
           return False, False
-        if got_t != 5:
+        if t_r == _FLEX:
+          return got_g == g_r and flex_point_ok(), False
+        if abs(got_d - ref_depth) > 1e-4 * (1.0 + abs(ref_depth)) + 2e-5:
           return False, False
         return True, got_g != g_r
 
-      good, tie = ok(dist, g, dl)
+      good, tie = ok(dist, g, gt, dl)
       if good and not tie:
-        acc.hit("hit" if g >= 0 else "background")
+        acc.hit({_GEOM: "hit", _FLEX: "flex-hit"}.get(gt, "background"))
         continue
       if good and tie:
         acc.hit("tie-accepted")
@@ -207,17 +300,44 @@ def _compare(acc, mujoco, mjm, mjd, cam, W, H, depth, seg, enabled_groups, xml, 
       for ex, ey in ((eps, 0), (-eps, 0), (0, eps), (0, -eps), (eps, eps), (-eps, -eps), (eps, -eps), (-eps, eps)):
         dj = dl + np.array([ex, ey, 0.0])
         dj /= np.linalg.norm(dj)
-        dist_j, g_j = _ref_pixel(mujoco, mjm, mjd, org, R @ dj, gg, gid)
-        gj, _ = ok(dist_j, g_j, dj)
+        dist_j, g_j, t_j = _ref_pixel(mujoco, mjm, mjd, org, R @ dj, gg, gid)
+        gj, _ = ok(dist_j, g_j, t_j, dj)
         if gj:
           accepted = True
           break
       if accepted:
         acc.hit("silhouette-accepted")
         continue
+      if mjm.nflex and (gt == _FLEX or got_t == _FLEX):
+        # flex rim / flex just in front of a geom: the rendered plate and MuJoCo's spheres+capsules+faces differ by O(radius)
+        rg = _ref_geom(mujoco, mjm, mjd, org, dw, gg, gid)
+        if got_t == _FLEX:
+          # rendered flex where the reference sees something else: the hit point must be on the flex and no rigid geom clearly in front of it
+          slack = 0.05 + 10.0 * float(mjm.flex_radius[got_g]) if 0 <= got_g < mjm.nflex else 0.0
+          if flex_point_ok() and (rg[1] < 0 or rg[0] > got_dist - slack):
+            acc.hit("flex-rim-accepted")
+            continue
+        else:
+          # reference sees the flex, the renderer does not: what is rendered must be exactly the rigid-only reference, and the ray must graze the flex
+          # (a ray tilted by ~2.5 radius/distance misses it) or the rigid hit is just behind the flex surface
+          r = float(mjm.flex_radius[g])
+          good_r, _ = ok(rg[0], rg[1], rg[2], dl)
+          graze = rg[1] >= 0 and rg[0] < dist + 0.05 + 10.0 * r
+          if good_r and not graze:
+            e = 2.5 * r / max(dist, 0.05)
+            for ex, ey in ((e, 0), (-e, 0), (0, e), (0, -e), (e, e), (-e, -e), (e, -e), (-e, e)):
+              dj = dl + np.array([ex, ey, 0.0])
+              dj /= np.linalg.norm(dj)
+              fj = _ref_flex(mujoco, mjm, mjd, org, R @ dj)
+              if fj[1] != g or fj[0] > dist + 0.05 + 10.0 * r:
+                graze = True
+                break
+          if good_r and graze:
+            acc.hit("flex-rim-accepted")
+            continue
       ref_depth = dist * -dl[2] if g >= 0 else 0.0
-      acc.find(f"{what}: pixel ({px},{py}) of {W}x{H}: rendered depth {got_d:.6g} seg ({got_g},{got_t}) vs ray cast depth {ref_depth:.6g} geom {g}", "render.render", replay.get("trigger", "vs-mj_ray"),
-               xml=xml, pixel=[px, py], res=[W, H], **{k: v for k, v in replay.items() if k != "trigger"})
+      acc.find(f"{what}: pixel ({px},{py}) of {W}x{H}: rendered depth {got_d:.6g} seg ({got_g},{got_t}) vs ray cast depth {ref_depth:.6g} {'flex' if gt == _FLEX else 'geom'} {g}", "render.render",
+               replay.get("trigger", "vs-mj_ray"), xml=xml, pixel=[px, py], res=[W, H], **{k: v for k, v in replay.items() if k != "trigger"})
   return n
 
 
@@ -239,11 +359,18 @@ def _check_mesh_half(acc, mjm, rc, xml):
     acc.hit("mesh-half-checked")
 
 
-def _render_case(acc, rng, mujoco, mjw, wp, with_mesh, intrinsic, nworld, precomputed, cull):
+def _render_case(acc, rng, mujoco, mjw, wp, with_mesh, intrinsic, nworld, precomputed, cull, flex=0):
   W, H = int(rng.integers(3, 34)), int(rng.integers(3, 26))
-  xml, plane = _scene(rng, with_mesh=with_mesh, intrinsic=intrinsic, W=W, H=H)
+  xml, plane = _scene(rng, with_mesh=with_mesh, intrinsic=intrinsic, W=W, H=H, flex=flex)
   mjm = mujoco.MjModel.from_xml_string(xml)
+  if flex and not mjm.nflex:
+    acc.hit("flex-not-compiled-skipped")
+    return
   groups = sorted(set(int(g) for g in rng.choice(4, size=int(rng.integers(1, 5)))))
+  if flex:
+    # keep most rigid geoms rendered next to the flex leaves (at most one group disabled)
+    drop = int(rng.integers(0, 5))
+    groups = [g for g in range(4) if g != drop]
   enabled = np.isin(mjm.geom_group, groups)
   if not enabled.any():
     # zero rendered geoms: refit_bvh / render crash the process (see _probe_empty_scene); outside the comparable domain
@@ -256,6 +383,10 @@ def _render_case(acc, rng, mujoco, mjw, wp, with_mesh, intrinsic, nworld, precom
     mjd = mujoco.MjData(mjm)
     for j in range(mjm.njnt):
       a = mjm.jnt_qposadr[j]
+      if mjm.jnt_type[j] != 0:
+        # flex vertex slide dof: the cloth / cable is deformed differently in every world
+        mjd.qpos[a] += rng.normal() * 0.03
+        continue
       mjd.qpos[a:a + 3] += rng.normal(size=3) * 0.3
       q = rng.normal(size=4)
       mjd.qpos[a + 3:a + 7] = q / np.linalg.norm(q)
@@ -282,6 +413,8 @@ def _render_case(acc, rng, mujoco, mjw, wp, with_mesh, intrinsic, nworld, precom
   mjw.kinematics(m, d)
   mjw.com_pos(m, d)
   mjw.camlight(m, d)
+  if mjm.nflex:
+    mjw.flex(m, d)
   try:
     rc = mjw.create_render_context(mjm, nworld=nworld, cam_res=(W, H), render_rgb=False, render_depth=True, render_seg=True, enabled_geom_groups=groups,
                                    use_precomputed_rays=precomputed, enable_backface_culling=cull)
@@ -304,15 +437,22 @@ def _render_case(acc, rng, mujoco, mjw, wp, with_mesh, intrinsic, nworld, precom
     acc.find("get_depth differs from clamp(depth_data / depth_scale, 0, 1)", "render_util.get_depth", "get-depth", xml=xml)
   if not np.array_equal(sout.numpy().reshape(nworld, H * W, 2), seg[:, :H * W]):
     acc.find("get_segmentation differs from seg_data", "render_util.get_segmentation", "get-seg", xml=xml)
+  if mjm.nflex:
+    # the renderer reads d.flexvert_xpos: the reference must see the same vertices (smooth.flex is another property's business)
+    fx = d.flexvert_xpos.numpy()
+    acc.hit(f"flex-{flex}-nworld-{nworld}-leaves-{int(rc.bvh_ngeom)}+{int(rc.bvh_nflexgeom)}")
   for w in range(nworld):
     if not np.allclose(d.cam_xpos.numpy()[w, cam], datas[w].cam_xpos[cam], atol=1e-4):
       acc.hit("cam-pose-mismatch-skipped")
       continue
+    if mjm.nflex and not np.allclose(fx[w], datas[w].flexvert_xpos, atol=1e-4):
+      acc.hit("flexvert-mismatch-skipped")
+      continue
     _compare(acc, mujoco, mjm, datas[w], cam, W, H, depth[w], seg[w], groups, xml, f"world {w}",
              dict(world=w, groups=groups, precomputed=precomputed, cull=cull, qpos=datas[w].qpos.tolist()))
-  acc.distinct.add((W, H, with_mesh, intrinsic, nworld, precomputed, cull, tuple(groups)))
+  acc.distinct.add((W, H, with_mesh, intrinsic, nworld, precomputed, cull, tuple(groups), flex))
   acc.hit(f"{'mesh' if with_mesh else 'prim'}-{'intr' if intrinsic else 'fovy'}-{'pre' if precomputed else 'perworld'}-{'cull' if cull else 'nocull'}")
-  acc.sample({"res": [W, H], "nworld": nworld, "ngeom": int(mjm.ngeom), "groups": groups, "mesh": with_mesh, "intrinsic": intrinsic, "precomputed_rays": precomputed, "cull": cull})
+  acc.sample({"res": [W, H], "nworld": nworld, "ngeom": int(mjm.ngeom), "groups": groups, "mesh": with_mesh, "intrinsic": intrinsic, "precomputed_rays": precomputed, "cull": cull, "flex": flex, "nflex": int(mjm.nflex)})
 
 
 def _render_xml(mujoco, mjw, xml, W, H, **kw):
@@ -427,7 +567,11 @@ def _run(ctx, ncases, probes=True):
     nworld = int(rng.integers(1, 4))
     precomputed = bool(rng.random() < 0.5)
     cull = bool(rng.random() < 0.6)
-    _render_case(acc, rng, mujoco, mjw, wp, with_mesh, intrinsic, nworld, precomputed, cull)
+    # every 4th case: flexes (cloth; cloth + cable; two cloths, in rotation) next to the rigid geoms, always >= 2 worlds: the scene BVH then has bvh_ngeom + bvh_nflexgeom leaves per world
+    flex = 1 + (c // 4) % 3 if c % 4 == 2 else 0
+    if flex:
+      nworld = 2 + (c // 4) % 2
+    _render_case(acc, rng, mujoco, mjw, wp, with_mesh, intrinsic, nworld, precomputed, cull, flex=flex)
   if probes:
     _probes(acc, mujoco, mjw)
     if ctx.thorough:
@@ -437,8 +581,9 @@ def _run(ctx, ncases, probes=True):
 
 RULE = ("random scenes (static and free-body sphere/capsule/cylinder/box/ellipsoid geoms, optional meshes (symmetric tetrahedron, off-centre pyramids), optional finite/infinite plane, random geom groups and alpha>0), camera on a free body "
         "looking at the scene from a random shell position with random roll, fovy or sensorsize/focal/principal intrinsics, resolutions 3..33 x 3..25, 1-3 worlds with different body and camera "
-        "poses, random enabled group subset, precomputed or per-world rays, backface culling on/off; every pixel of every world: depth_data and seg_data vs mujoco.mj_ray along the numpy pixel ray "
-        "(planar depth, rel 1e-4), ties and jitter-confirmed silhouette pixels accepted and counted; get_depth / get_segmentation vs the raw buffers; the repaired mesh-offcentre trigger as a regression that must pass; build_mesh_bvh's half extent vs max(|pmin|,|pmax|) and vertex containment; deterministic probes of the defects still present (plane-far, orthographic; empty-scene crash in a subprocess, thorough tier); "
+        "poses, every 4th case with flexes (2D cloth / cloth + 1D cable / two cloths in rotation, in view or far away, vertices displaced differently per world, 2-3 worlds, at most one geom group disabled; "
+        "pipeline kinematics -> flex -> refit_bvh -> render), random enabled group subset, precomputed or per-world rays, backface culling on/off; every pixel of every world: depth_data and seg_data vs mujoco.mj_ray along the numpy pixel ray "
+        "(planar depth, rel 1e-4) and, for flexes, mujoco.mj_rayFlex + distance of the rendered hit point from the flex mid-surface (numpy), ties and jitter-confirmed silhouette pixels accepted and counted; get_depth / get_segmentation vs the raw buffers; the repaired mesh-offcentre trigger as a regression that must pass; build_mesh_bvh's half extent vs max(|pmin|,|pmax|) and vertex containment; deterministic probes of the defects still present (plane-far, orthographic; empty-scene crash in a subprocess, thorough tier); "
         "distinct = (resolution, configuration) tuples")
 
 
